@@ -49,14 +49,17 @@ def run_core(ctx, mode):
     # ---------------------------------------------------------------- (M) model checking
     if mode == "pre":
         ctx.mc("MC_Semantics", {"Mode": '"pre"', "Depth": 1 if quick else 2, "NVals": 2}, ["FoldRefines", "DeMorgan"],
-               timeout=1500)
+               timeout=3000)
         ctx.mc("MC_Semantics", {"Mode": '"pre"', "Depth": 2, "NVals": 2}, ["BadFoldInit"], expect_violation=True)
         ctx.mc("MC_Semantics", {"Mode": '"pre"', "Depth": 2, "NVals": 2}, ["BadForallExact"], expect_violation=True)
         if not quick:
             ctx.mc("MC_Semantics", {"Mode": '"pre"', "Depth": 2, "NVals": 2}, ["BadForallDropped"], expect_violation=True)
     else:
-        ctx.mc("MC_Semantics", {"Mode": '"eff"', "Depth": 1 if quick else 2, "NVals": 2 if quick else 3},
-               ["ApplyRefines", "Frame"], timeout=1500)
+        ctx.mc("MC_Semantics", {"Mode": '"eff"', "Depth": 1 if quick else 2, "NVals": 2}, ["ApplyRefines", "Frame"], timeout=3000)
+        if not quick:
+            # three fluent values at depth 1 (depth 2 with three values is 10 M states / 17 min on 16 idle cores)
+            ctx.mc("MC_Semantics", {"Mode": '"eff"', "Depth": 1, "NVals": 3}, ["ApplyRefines", "Frame"], timeout=3000,
+                   label="MC_Semantics:eff:d1v3")
         ctx.mc("MC_Semantics", {"Mode": '"eff"', "Depth": 1, "NVals": 2}, ["BadReadNew"], expect_violation=True)
         ctx.mc("MC_Semantics", {"Mode": '"eff"', "Depth": 1, "NVals": 2}, ["BadWhenAlways"], expect_violation=True)
     # ---------------------------------------------------------------- (G) spec -> code
@@ -175,7 +178,7 @@ def run_c18(ctx):
     rng = random.Random(ctx.seed)
     ctx.mc("MC_Rename", {"Mode": '"pre"', "Depth": 1, "NVals": 2}, ["SameShape", "SameBehaviour"], label="MC_Rename:pre")
     ctx.mc("MC_Rename", {"Mode": '"eff"', "Depth": 1 if quick else 2, "NVals": 2}, ["SameShape", "SameBehaviour"],
-           label="MC_Rename:eff", timeout=1500)
+           label="MC_Rename:eff", timeout=3600)
     ctx.mc("MC_Rename", {"Mode": '"pre"', "Depth": 1, "NVals": 2}, ["BadInPlace"], expect_violation=True)
     cases = []
     for i in range(300 if quick else 6000):
